@@ -17,6 +17,8 @@ Case lines (manifest text, names and paths are hex encoded; '-' is the empty str
   p.lr   sizes s n  locators_and_ranges on raw block sizes
   p.fb   sizes s    first_block
   p.esc  N          escape
+  p.rr   W s n      replace_range for each write of W (start,size,k,off; locator b<k>) on one list, then the list and
+                    locators_and_ranges(list, s, n)
 
 The oracle below is an independent reference interpreter written from
 doc/architecture/manifest-format.html.textile.liquid; it never looks at the Lean model.
@@ -33,7 +35,9 @@ RULE = ("grammar-directed manifests (1-4 streams, 1-5 blocks of size 0-20 drawn 
         "backslash, backslash-digit sequences, control and non-ASCII bytes (raw and as \\ooo escapes), filenames with '/', "
         "sibling directories whose names are string prefixes of each other), every codec run on "
         "each manifest, every (srcpath, relocate) pair over the manifest's directories/files for Extract; direct "
-        "binary-search cases over non-decreasing offset arrays; escape round trips on random byte strings; "
+        "binary-search cases over non-decreasing offset arrays; replace_range write sequences on one segment list "
+        "(starts/ends on, next to and inside segment boundaries, appends continuing the last block, writes past the "
+        "end) followed by locators_and_ranges; escape round trips on random byte strings; "
         "larger streams (6-12 blocks of size up to 70, up to 12 file tokens); grammar-valid manifests with a file/directory conflict; streams with block sizes near 2^63 (lengths up to "
         "and beyond 2^64); a "
         "malformed stream (arbitrary bytes over a manifest-like alphabet and single-token mutations of valid "
@@ -401,6 +405,8 @@ def oracle(case, impl):
                 return None            # no block at all: outside the precondition (streams have >= 1 block)
         if op in ("p.fb", "p.lr") and f[1] == "-":
             return None
+        if op == "p.rr" and rr_reference(f[1]) is None:
+            return None            # a write beyond the end of the file: outside replace_range's precondition
         return f"no-panic clause: {op} ended with {impl[:120]}"
     if impl.startswith("err-with-partial-result"):
         return "error returned together with a partial result"
@@ -556,6 +562,31 @@ def oracle(case, impl):
         if impl != want:
             return f"binary search returned {impl}, the block containing offset {start} is {want}"
         return None
+    if op == "p.rr":
+        # semantics of overwriting a range of a file: afterwards position q of the file is byte off+(q-start) of
+        # the written locator for q inside the range, and what it was before everywhere else
+        want = rr_reference(f[1])
+        if want is None:
+            return None
+        g = impl.split(" ")
+        got, pos = [], None
+        for e in ([] if g[1] == "-" else g[1].split(",")):
+            loc, a, b, o = e.rsplit(":", 3)
+            a, b, o = int(a), int(b), int(o)
+            if pos is not None and a != pos:
+                return f"replace_range left a list that is not contiguous at {a}"
+            if pos is None and a != 0 and want:
+                return "replace_range left a list that does not start at 0"
+            pos = a + b
+            got += [(loc, o + k) for k in range(b)]
+        if got != want:
+            return "after replace_range the segment list does not describe the file with the ranges overwritten"
+        start, size = int(f[2]), int(f[3])
+        if start + size <= len(want):
+            rd = [(loc.decode(), off + k) for loc, off, ln in parse_segs(g[2]) for k in range(ln)]
+            if rd != want[start:start + size]:
+                return "locators_and_ranges over the list left by replace_range differs from the file's bytes"
+        return None
     if op == "p.lr":
         sizes = [int(s) for s in f[1].split(",")] if f[1] != "-" else []
         start, size = int(f[2]), int(f[3])
@@ -566,6 +597,22 @@ def oracle(case, impl):
             return "locators_and_ranges differs from the format's semantics"
         return None
     return None
+
+
+@functools.lru_cache(maxsize=4096)
+def rr_reference(ws):
+    """the file as a list of (locator, offset in block) per position after the writes; None if a write starts
+    beyond the current end (replace_range assumes contiguous segments)"""
+    file = []
+    if ws != "-":
+        for w in ws.split(";"):
+            a, b, k, o = (int(x) for x in w.split(","))
+            if b == 0:
+                continue
+            if a > len(file):
+                return None
+            file[a:a + b] = [("b%d" % k, o + j) for j in range(b)]
+    return file
 
 
 def ref_strconv(s, signed, bits, base=10):
@@ -1013,6 +1060,49 @@ def gen_loc_strings(rng, n):
     return out
 
 
+def gen_rr_case(rng):
+    """a sequence of replace_range writes on one segment list (as a file being written piecewise): starts on, one
+    before/after and inside existing segment boundaries, lengths ending on/inside/beyond segments and beyond the end
+    of the file, appends that continue the last block (the 'extend last segment' path), zero-length writes; now and
+    then a write beyond the end (model fidelity only)"""
+    ws, bounds, length, last = [], [0], 0, None
+    for _ in range(rng.randint(1, 9)):
+        r = rng.random()
+        if r < 0.3 or length == 0:
+            a = length
+        elif r < 0.75:
+            a = min(max(rng.choice(bounds) + rng.choice([-1, 0, 0, 1]), 0), length)
+        elif r < 0.97:
+            a = rng.randint(0, length)
+        else:
+            a = length + rng.randint(1, 3)
+        r = rng.random()
+        if r < 0.1:
+            b = 0
+        elif r < 0.5:
+            e = rng.choice(bounds + [length]) + rng.choice([-1, 0, 0, 1])
+            b = e - a if e > a else rng.randint(1, 6)
+        else:
+            b = rng.randint(1, 8)
+        k = rng.randint(0, 3)
+        o = rng.choice([0, 0, 1, 5, rng.randint(0, 30)])
+        if last is not None and a == length and rng.random() < 0.5:
+            k, o = last[0], last[1] + (0 if rng.random() < 0.8 else 1)       # continue (or nearly) the last block
+        ws.append(f"{a},{b},{k},{o}")
+        if b > 0 and a <= length:
+            bounds += [a, a + b]
+            if a + b >= length:
+                last = (k, o + b) if a + b > length or a == length else last
+            length = max(length, a + b)
+            if a + b == length:
+                last = (k, o + b)
+    r = rng.random()
+    s = rng.choice(bounds) if r < 0.6 else rng.randint(0, length)
+    s = min(s, length)
+    n = rng.randint(0, length - s) if rng.random() < 0.8 else length - s
+    return f"p.rr {';'.join(ws)} {s} {n}"
+
+
 def ext_pairs(rng, ref, tier):
     files = list(ref["files"])
     dirs = sorted({p.rsplit(b"/", 1)[0] for p in files} | dirs_of(files) | {b"."})
@@ -1110,6 +1200,9 @@ def generate(rng, tier):
         n = b"".join(rng.choice([b".", b"..", b"/", b"/", b"a", b"b c", b"\\", b"./", b"//", b"x.", b".x", b"",
                                  bytes([rng.randrange(256)])]) for _ in range(rng.randint(0, 9)))
         out.append(f"m.fix {hx(n)}")
+    for _ in range(400 if quick else 12000):
+        out.append(gen_rr_case(rng))
+    out.append("p.rr - 0 0")
     for n in gen_clean_strings(rng, 6 if quick else 8, 200 if quick else 4000):
         out.append(f"m.clean {hx(n)}")
     for n in gen_num_strings(rng, 150 if quick else 6000):
@@ -1144,7 +1237,7 @@ def nontrivial_key(case, impl):
         zero = any(sz == 0 for _, bl, _ in ref["streams"] for _, sz in bl)
         esc = b"\\" in unhex(f[1])
         return case if (multi or zero or esc) else None
-    if f[0] in ("m.fb", "p.fb", "p.lr"):
+    if f[0] in ("m.fb", "p.fb", "p.lr", "p.rr"):
         return case if "," in f[1] else None
     return case if len(f[1]) > 2 else None
 
@@ -1197,6 +1290,8 @@ def neighbours(case, rng):
             for _ in range(10):
                 cases_for_malformed(gen_garbage(rng), out)
                 cases_for_malformed(mutate(rng, gen_valid(rng)), out)
+    elif f[0] == "p.rr":
+        out += [gen_rr_case(rng) for _ in range(60)]
     elif f[0] in ("m.fb", "p.fb", "p.lr"):
         for _ in range(20):
             n = rng.randint(1, 6)
